@@ -6,7 +6,7 @@ from .common import *
 
 META = {
     'title': 'Keccak: round constants from the LFSR, rho offsets from the triangular walk, theta/rho/pi/chi/iota and sponge/duplex terms vs FIPS 202 restatement, pad10*1 room tabulated, SHA-3/SHAKE suffix and capacity table',
-    'expected_min': 28,
+    'expected_min': 111,
     'explanation': 'RC[0..23] folded from the module body are compared with the LFSR derivation; every function of keccak.py and the SHA3/SHAKE '
                    'wrappers of sha.py is normalised and compared with a restatement of FIPS 202 (the rho offset table inside Round is generated from '
                    'the (t+1)(t+2)/2 walk); the number of zero bits of pad10*1 is bound through a hole and tabulated for every rate 1..1600 and every '
